@@ -187,7 +187,7 @@ fn corpus() -> Vec<(String, Vec<Op>)> {
         // ~2.3 KB records until the WAL crosses its checkpoint threshold inside a put: the cards of that put are
         // extracted AFTER the automatic commit applied its record
         ("auto-commit-inside-card-put".into(), (0..26).map(|i| tput(card_payload(2300, 20_000 + 1000 * i as u64), 200 + i, i % 3 == 0, i % 2 == 0))
-            .chain([Op::Crash, Op::Reopen]).collect()),
+            .chain([Op::Commit, Op::Reopen]).collect()),
     ]
 }
 
